@@ -94,7 +94,8 @@ def _run_bounded(arg):
         mod = importlib.import_module(modname)
         b = _bounded_of(mod, tier)[idx]
         r = b.run(tier, seed)
-        r.update(name=b.name, function=b.function, bound=b.bound(tier) if callable(b.bound) else b.bound, kind=getattr(b, "kind", "bounded"))
+        r.update(name=b.name, function=b.function, bound=b.bound(tier) if callable(b.bound) else b.bound, kind=getattr(b, "kind", "bounded"),
+                 private=bool(getattr(b, "private", False)))
         r.setdefault("seconds", time.time() - t0)
         return r
     except Exception as exc:
@@ -106,10 +107,20 @@ def _run_bounded(arg):
                 nm, fnn, bd = b.name, b.function, (b.bound(tier) if callable(b.bound) else b.bound)
             except Exception:
                 nm, fnn, bd = f"{modname}.BOUNDED[{idx}]", "?", "?"
-            return dict(name=nm, function=fnn, bound=bd, kind=getattr(b, "kind", "bounded"), cases=1, seconds=time.time() - t0,
+            return dict(name=nm, function=fnn, bound=bd, kind=getattr(b, "kind", "bounded"), private=bool(getattr(b, "private", False)), cases=1, seconds=time.time() - t0,
                         failures=[dict(input=under_test, detail=f"the code under check raised {type(exc).__name__}: {exc} (an exception the statement does not provide for on this input)")])
         return dict(name=f"{modname}.BOUNDED[{idx}]", function="?", bound="?", cases=0, failures=[],
                     error="checker crash: " + traceback.format_exc(), seconds=time.time() - t0)
+
+
+def _private_unit(u):
+    """the unit's function under contract is a private helper (single leading underscore): its contract is a lemma on the way
+    to the property, not the property"""
+    fns = u.get("functions") or []
+    if not fns:
+        return False
+    last = fns[0].split(".")[-1].split("#")[0]
+    return last.startswith("_") and not last.startswith("__")
 
 
 def _proof_internal(obligation_id):
@@ -267,7 +278,7 @@ def run_property(pid, tier="quick", seed=0, jobs=None):
                                              vacuous=False, smt_size=0, auto_slots=[], needs_witness=True,
                                              detail=f"the function now also writes {extra} (its modifies set on the pinned tree: {frames[u['unit']]}); "
                                                     "state kept across calls can make a later call wrong"))
-    obligations = [dict(o, unit=u["unit"]) for u in unit_results for o in u["obligations"]]
+    obligations = [dict(o, unit=u["unit"], private_unit=_private_unit(u)) for u in unit_results for o in u["obligations"]]
     errors = [f"{u['unit']}: {e}" for u in unit_results for e in u["errors"]]
     for b in bounded_results:
         if b.get("error"):
@@ -354,6 +365,12 @@ def run_property(pid, tier="quick", seed=0, jobs=None):
             # way nothing here can exhibit. That is "not proved", reported as undecided with the obligation named.
             errors.append(f"{k}: the inductive proof fails here ({str(o['detail'])[:160]}) and no failing input was found - undecided, not a violation")
             continue
+        if not reproduced and all(x.get("private_unit") for x in inst):
+            # the contract of a private helper fails symbolically, the counter-model does not replay, and the search of the public
+            # API finds nothing: the helper's internal interface may have changed with its callers (its contract is mine, not the
+            # statement's). Undecided.
+            errors.append(f"{k}: the contract of this private helper is not established ({str(o['detail'])[:160]}) and no failing input of the public API was found - undecided, not a violation")
+            continue
         if not reproduced and all(x.get("auto_slots") for x in inst):
             # the proof failed in a context where the contract says nothing about a loop-carried local the code
             # introduced: without a failing input this is "needs contract", not a violation
@@ -368,7 +385,16 @@ def run_property(pid, tier="quick", seed=0, jobs=None):
                            reproduced_on_real_code=reproduced,
                            tree=_tree_sha(), rerun=f"./check {pid} --tier {tier}"), f, indent=1, default=str)
         violations.append((k, path, reproduced))
+    public_evidence = bool(violations) or any(b.get("failures") and not b.get("private") for b in bounded_results)
     for b in bounded_results:
+        if b.get("private") and b.get("failures") and not public_evidence:
+            if "w" not in witness_cache and hasattr(mod, "witness_search"):
+                witness_cache["w"] = _search(mod, tier, seed, errors)
+            if not witness_cache.get("w"):
+                fl = b["failures"][0]
+                errors.append(f"bounded:{b['name']}: this stand-in calls a private helper directly and disagrees with it ({str(fl.get('detail'))[:160]}), but nothing "
+                              f"that goes through the public API fails - the helper's interface may have changed with its callers. Undecided, not a violation")
+                continue
         for i, fl in enumerate(b.get("failures", [])[:3]):
             safe = "".join(ch if ch.isalnum() or ch in "-_." else "_" for ch in b["name"])
             path = os.path.join("replay", f"{pid}-bounded-{safe}-{i}.json")
